@@ -17,6 +17,17 @@ func init() {
 			Assumptions: analyzeAssume,
 		})
 	}
+	for _, id := range []string{"C14", "C15"} {
+		reg(&PropDef{
+			ID: id, Level: "proof", FactsOK: true,
+			LeanModules: []string{"Verif.Properties." + id},
+			Streams:     []func(*Ctx) StreamResult{opsStream.Run},
+			Assumptions: append([]string{
+				"swag.ToGoName and the decoding of $ref strings into pointer tokens are external functions: their values on the names/refs of each document are computed by the real libraries and shipped with the case",
+				"method strings are ASCII; lookups by id are made for non-empty unique ids and unknown ids",
+			}, analyzeAssume...),
+		})
+	}
 	mixinAssume := []string{
 		"documents are those go-openapi/spec loads, in serialization normal form (absent == zero value)",
 		"operation ids are unique within each document and none has the form <id>Mixin<N> of another (hypotheses of C18; the generator guarantees them)",
